@@ -103,6 +103,21 @@ theorem limited_per_unit (K : Nat) (rank : Pair → Int) (ps : List Pair) (u : N
   rw [← h, List.length_map] at this
   exact this
 
+/-- **Nothing is invented**: a released key is a key some protected row carries (the threshold only removes keys). -/
+theorem released_key_in_data (K : Nat) (rank : Pair → Int) (noise : Int → Int) (tau : Int) (rows : List Pair) (k : Int)
+    (h : k ∈ releasedKeys K rank noise tau rows) : ∃ u, (u, k) ∈ rows := by
+  unfold releasedKeys at h
+  have h1 := (List.mem_filter.mp h).1
+  have h2 := (dedup_sublist _).subset h1
+  obtain ⟨p, hp, rfl⟩ := List.mem_map.mp h2
+  exact ⟨p.1, (dedup_sublist rows).subset ((limited_sublist K rank _).subset hp)⟩
+
+/-- … and every released key is released once -/
+theorem releasedKeys_nodup (K : Nat) (rank : Pair → Int) (noise : Int → Int) (tau : Int) (rows : List Pair) :
+    (releasedKeys K rank noise tau rows).Nodup := by
+  unfold releasedKeys
+  exact List.Nodup.sublist List.filter_sublist (dedup_nodup _)
+
 /-- non-vacuity: three units hold key 7, one unit holds key 9 alone; K = 2, τ = 1, no noise, distinct ranks -/
 example : releasedKeys 2 (fun p => (p.1 : Int) * 10 + p.2) (fun _ => 0) 1 [(1, 7), (2, 7), (3, 7), (3, 9), (1, 7)] = [7] ∧
     (unitsHolding [(1, 7), (2, 7), (3, 7), (3, 9), (1, 7)] 9).length = 1 := by decide
